@@ -182,6 +182,7 @@ type callRes struct {
 	resp    interface{}
 	err     error
 	hin     string // model input of the case (computed before the delivery), "" if none
+	input   string // the delivered hostile message (JSON), for the violation report
 }
 
 // guardedGo runs f in a goroutine under recover, with a watchdog.
